@@ -462,7 +462,9 @@ theorem inv_create (s : Store) (arg : Bytes) (now : Nat) (hi : Inv s) : Inv (s.c
     · exact hi
     · split
       · exact hi
-      · exact inv_newBox _ _ _ (inv_newBoxes _ _ _ hi)
+      · split
+        · exact hi
+        · exact inv_newBox _ _ _ (inv_newBoxes _ _ _ hi)
 
 theorem inv_delete (s : Store) (arg : Bytes) (hi : Inv s) : Inv (s.delete arg).1 := by
   unfold Store.delete
@@ -487,21 +489,23 @@ theorem inv_rename (s : Store) (o n : Bytes) (now : Nat) (hi : Inv s) : Inv (s.r
   · split
     · exact hi
     · split
+      · exact hi
       · split
-        · exact hi
         · split
           · exact hi
-          · rename_i hn _ ib hf
-            exact inv_renameInbox s _ now ib hi hf (by simpa using hn)
-      · split
-        · exact hi
+          · split
+            · exact hi
+            · rename_i hn _ ib hf
+              exact inv_renameInbox s _ now ib hi hf (by simpa using hn)
         · split
           · exact hi
-          · have h1 := inv_newBoxes s (ancestors (GoStr.trimQuotes n)) now hi
-            split
-            · rename_i hnd
-              exact inv_renameBoxes _ _ h1 (by simpa [namesNodup] using hnd)
-            · exact h1
+          · split
+            · exact hi
+            · have h1 := inv_newBoxes s (ancestors (GoStr.trimQuotes n)) now hi
+              split
+              · rename_i hnd
+                exact inv_renameBoxes _ _ h1 (by simpa [namesNodup] using hnd)
+              · exact h1
 
 theorem inv_subscribe (s : Store) (a : Bytes) (hi : Inv s) : Inv (s.subscribe a).1 := by
   unfold Store.subscribe; simp only []
